@@ -234,6 +234,58 @@ def _local_set_always_lands(ctx, mod):
     ctx.ob("R7", f"{EN}:Env._set_item", f"with `{tl}` set every normal path stores into the private layer (`set_locally`)", ok, key="_set_item|local-set-skipped", where=loc(fn0), path=cfg.fmt_path(path) if path else None)
 
 
+
+def _one_layer_per_write(ctx, mod):
+    ms = class_methods(mod.cls("InternalEnvironDict"))
+    MUT = ("pop", "popitem", "clear", "update", "setdefault", "__setitem__", "__delitem__")
+    n = 0
+    for nm in ("__setitem__", "__delitem__", "pop", "popitem"):
+        fn = ms.get(nm)
+        if fn is None:
+            continue
+        cfg = CFG(fn)
+        defs = df.all_defs(fn)
+        loc_names, glo_names, mixed = {"self._local"}, {"self._global"}, set()
+        for _ in range(3):
+            for n_, ds in defs.items():
+                vals = [unparse(d.value) for d in ds if d.value is not None and d.kind == "assign"]
+                if not vals or len(vals) != len(ds):
+                    continue
+                if all(v in loc_names for v in vals):
+                    loc_names.add(n_)
+                elif all(v in glo_names for v in vals):
+                    glo_names.add(n_)
+                elif all(v in loc_names | glo_names for v in vals):
+                    mixed.add(n_)
+
+        def mutates(node, names):
+            a = node.ast
+            for x in ast.walk(a):
+                if isinstance(x, ast.Subscript) and isinstance(x.ctx, (ast.Store, ast.Del)) and unparse(x.value) in names:
+                    return True
+                if isinstance(x, ast.Call) and isinstance(x.func, ast.Attribute) and x.func.attr in MUT and unparse(x.func.value) in names:
+                    return True
+            return False
+
+        L = [nd for nd in cfg.nodes if nd.kind == "stmt" and mutates(nd, loc_names)]
+        G = [nd for nd in cfg.nodes if nd.kind == "stmt" and mutates(nd, glo_names)]
+        if not L or not G:
+            # one store through a layer chosen beforehand (`layer = local if key in local else self._global; layer[key] = v`)
+            chosen = mixed | {n_ for n_, ds in defs.items() if ds and all(d.value is not None and any(unparse(x) in loc_names for x in ast.walk(d.value)) and any(unparse(x) in glo_names for x in ast.walk(d.value)) for d in ds)}
+            C = [nd for nd in cfg.nodes if nd.kind == "stmt" and mutates(nd, chosen)] if chosen else []
+            if C and not L and not G:
+                n += 1
+                seen_c = cfg.reach(C, skip_edge=lambda a_, b_, l_: l_ == "exc")
+                again = [c_ for c_ in C if c_ in seen_c]
+                ctx.ob("R8", f"{EN}:InternalEnvironDict.{nm}", "the layer is chosen once and written once", not again, key=f"InternalEnvironDict.{nm}|both-layers-written", where=loc(fn))
+                continue
+            raise AnalysisError(f"{EN}:InternalEnvironDict.{nm}: the two layers are not both written here (local {len(L)}, shared {len(G)})")
+        n += 1
+        seen = cfg.reach(L, skip_edge=lambda a_, b_, l_: a_ in L and l_ == "exc")
+        hit = [g for g in G if g in seen]
+        ctx.ob("R8", f"{EN}:InternalEnvironDict.{nm}", "no path that changed the private layer goes on to change the shared one", not hit, key=f"InternalEnvironDict.{nm}|both-layers-written", where=loc(hit[0].ast) if hit else loc(fn), path=cfg.fmt_path(cfg.path_to(seen, hit[0])) if hit else None)
+
+
 def _through_predicates(facts, meths):
     """facts with calls of argument-less predicate methods of the class (`self._sees_private_values()`, one `return <expr>`)
     replaced by what the returned expression implies (`bool(A or B)` false -> A false, B false)"""
@@ -271,6 +323,7 @@ def check(ctx):
     ctx.rule("R1", "Env.swap captures each key before setting it, writes only thread-locally, and restores every captured key and the overlay in a finally that every exit passes", floor=8)
     ctx.rule("R2", "every read path compares a value taken from an overlay or the store with DELETE_VAR before returning/yielding/exporting it, and resolves a key by the top-most layer that contains it", floor=8)
     ctx.rule("R3", "worker threads read the spawner's swapped values before start() and install them before any other environment access in run()", floor=4)
+    ctx.rule("R8", "a write or delete touches one layer of the two-layer store: in InternalEnvironDict.__setitem__ / __delitem__ / pop / popitem no path that changed the thread-private layer goes on to change the shared one (a delete inside a scope that also drops the shared value is seen by every other thread and is not undone when the scope ends)", floor=4)
     ctx.rule("R7", "a scoped override is private from its first instant: asked for a thread-local set, _set_item reaches the thread-local store on every normal path - no shortcut (same value, same object, unchanged) returns before it; writes and deletes inside the scope are routed by 'is the key in the private layer', so a swap that left no private entry sends them to the shared mapping", floor=1)
     ctx.rule("R6", "what a worker thread inherits is the spawning thread's whole private view: the hand-over accessor returns a complete copy of the thread-local overrides - masks (DELETE_VAR) included, nothing filtered out or rewritten", floor=2)
     ctx.rule("R5", "thread-local state crosses a thread boundary only as a copy: no public method of Env / its dict hands out a thread-local container itself, and none installs a caller's object as thread-local state", floor=2)
@@ -504,6 +557,7 @@ def check(ctx):
     ctx.ob("R3", f"{EN}:InternalEnvironDict", "the override layer is a threading.local dict; the view handed to a worker is a copy", is_tl and copied, key="ied|local-shape")
     _thread_local_boundary(ctx, mod, model)
     _local_set_always_lands(ctx, mod)
+    _one_layer_per_write(ctx, mod)
     # installing: the function that does the work empties and refills the thread's own container - the same one
     icls, ifn, iparam = _installer(model)
     idefs = df.all_defs(ifn)
